@@ -616,6 +616,15 @@ pub fn update_msk(
     msk: &mut MasterSecretKey,
     rights: HashMap<Right, (EncryptionHint, AttributeStatus)>,
 ) -> Result<(), Error> {
+    // Check new rights first not to lose the MSK secrets upon error.
+    if rights.iter().any(|(r, (_, status))| {
+        AttributeStatus::DecryptOnly == *status && msk.secrets.get_latest(r).is_none()
+    }) {
+        return Err(Error::OperationNotPermitted(
+            "cannot add decrypt only secret".to_string(),
+        ));
+    }
+
     let mut secrets = take(&mut msk.secrets);
     secrets.retain(|r| rights.contains_key(r));
 
